@@ -14,13 +14,13 @@ LEVEL_NOTE = ('versions are abstracted to points of a dense total order (3 versi
               'textual re-parse inside simplify_specifiers is replaced by a table lookup; the '
               'field-quoting kernel uses rpc, a reference model of pkgconf 1.8 field reading and '
               'printing validated against the real pkg-config per run, then sh parsing (rsh) as the '
-              'consumer; directory (-I/-L) fragments and Requires lines are not driven through it')
+              'consumer; one include directory, one library directory and the install prefix are driven through the whole generated file (both variants); Requires lines are not driven through it')
 HARNESS = 'vpx.harness.c17'
 FUNCTIONS = ['bfg9000.versioning.simplify_specifiers', 'bfg9000.builtins.pkg_config.Requirement.'
              '__iand__', 'Requirement.split', 'RequirementSet.add', 'RequirementSet.merge_from',
              'RequirementSet.split', 'SimpleRequirement.__init__']
 OUTSIDE = ['more specifiers per name than the bound', 'operators ~= and === (rejected as invalid)',
-           'the textual form of versions (PEP 440 parsing is verspec\'s)', 'compiling a consumer', '-I/-L fragments (pkgconf filters and reorders them)', 'characters no .pc spelling can deliver ($ and parentheses: established at run time)',
+           'the textual form of versions (PEP 440 parsing is verspec\'s)', 'compiling a consumer', 'system directories and repeated -I/-L fragments (pkgconf filters and merges them)', 'a quote or trailing blank in the source/build directory itself (same mechanism as known finding C17-F21)', 'characters no .pc spelling can deliver ($ and parentheses: established at run time)',
            'pkgconf does not evaluate Conflicts in this sandbox\'s version, so Conflicts semantics '
            'are only checked as "conjunction of the emitted entries == original set"']
 STUBS = ['verspec Specifier/SpecifierSet -> Spec/SpecSet over integer points (vpx/harness/c17.py)']
@@ -62,6 +62,15 @@ def obligations(tier, kf):
     for n in range(0, (1 if quick else 3) + 1):
         obs.append(Ob('q_define', dict(kf, N=n, K=1, pc_excl=excl), {0: 60, 1: 200, 2: 1200, 3: 5000}[n],
                       desc='Cflags field quoting, |s|==%d' % n))
+    for which in ('uninstalled', 'installed'):
+        for n in range(1, (1 if quick else 2) + 1):
+            for part in ((-1,) if n == 1 else range(4)):
+                obs.append(Ob('i_paths', dict(kf, N=n, K=1, pc_excl=excl, which=which, part=part),
+                              {1: 900, 2: 6000}[n],
+                              desc='-I/-L directories through the whole %s file, |s|==%d%s' % (
+                                  which, n, '' if part < 0 else ', first character class %d' % part)))
+    ip = Ob('i_paths', dict(kf, N=1, K=1, pc_excl=excl, which='uninstalled'), 900)
+    obs += [ip.twin(), ip.mutant('sh_jbos_escaped_last_only')]
     obs.append(Ob('q_define', dict(kf, N=1, K=1, pc_excl=excl), 120).twin())
     obs.append(Ob('q_define', dict(kf, N=1, K=1, pc_excl=excl), 300).mutant('pc_no_hash_escape'))
     obs.append(Ob('q_define', dict(kf, N=1, K=1, pc_excl=excl), 300).mutant('posix_quote_safe'))
@@ -102,22 +111,57 @@ def conformance(tier):
     from vpx import conformance as cf
     k = 2 if tier == 'quick' else 3
     a, d, bad = cf.check_rpc(list(cf.strings(list("a'\\ #$\"{}()-=%~;"), k, 1)))
-    return [('rpc (pkgconf field reading + printing) vs /usr/bin/pkg-config', a, d, bad)]
+    out = [('rpc (pkgconf field reading + printing) vs /usr/bin/pkg-config', a, d, bad)]
+    a, d, bad = cf.check_rpc_file(list(cf.strings(list("a'\\ #$\"{}/.-=~:"), k, 1)))
+    out.append(('rpc whole-file reading (variables, ${pcfiledir}, -I/-L fragments) vs '
+                '/usr/bin/pkg-config', a, d, bad))
+    return out
 
 
 def classify(ob, cex):
     if ob.fn == 'q_define' and '\\#' in cex['args'][0]:
         return 'C17-F17'
+    if ob.fn == 'i_paths' and ob.params.get('which') == 'installed':
+        s = cex['args'][0]
+        if "'" in s or '"' in s or s[-1:] in (' ', '\t', '\x0b', '\x0c'):
+            return 'C17-F21'
     return None
 
 
 OPS = ['==', '!=', '>', '>=', '<', '<=']
 
 
+def real_paths(s, which):
+    """the generated file through the real pkg-config and the real /bin/sh"""
+    import importlib
+    from vpx import conformance as cf
+    h = importlib.import_module(HARNESS)
+    text, want = h.i_text(s, which)
+    detail = {'pc_file': text}
+    bad = False
+    for flag, k in (('--cflags', 0), ('--libs', 1)):
+        d, out = cf.real_pkgconfig_file(text, flag)
+        if d is None:
+            return None
+        if isinstance(out, tuple):
+            detail[flag] = out
+            bad = True
+            continue
+        with cf.Scratch() as sc:
+            r = cf.real_sh('prog ' + out, sc.dir, 0, 'prog')
+        got = None if isinstance(r[0], str) else r[1]
+        detail[flag] = {'printed': out, 'consumer_argv': got, 'declared': want(d)[k]}
+        if got != want(d)[k]:
+            bad = True
+    return {'reproduced': bad, 'detail': detail}
+
+
 def real_replay(ob, cex):
     """replay on real verspec SpecifierSet / Version objects with the real simplify_specifiers"""
     from bfg9000.versioning import simplify_specifiers, SpecifierSet, Version
     args = cex['args']
+    if ob.fn == 'i_paths':
+        return real_paths(args[0], ob.params.get('which', 'uninstalled'))
     if not (args and isinstance(args[0], (list, tuple))):
         return None      # the other obligations already run the real code in the harness body
     if ob.fn == 'm_merge':
